@@ -1066,6 +1066,38 @@ fn gen_c15(seed: u64, r: &mut Rng, huge: bool) -> Scenario {
             scn.term = Term::CollectX;
         }
     }
+    if !large && seed % 41 == 7 {
+        // sampled medium lengths (1.1k to 6k elements) with chunk sizes beyond 1024, under schedules that hold one
+        // worker back: where a later chunk is finished before an earlier one
+        let n = r.range(1100, 6000);
+        scn.vals = spec_vals(n, r.below(64) as u64);
+        scn.quiet = r.range(4, 6) as u8;
+        if scn.src == Src::SliceCloned {
+            scn.src = Src::Vec;
+        }
+        if r.chance(3, 4) {
+            let c = *r.pick(&[64usize, 1025, 1500, 2048, 3000, 4096]);
+            scn.cs = vec![(0, if r.chance(1, 2) { Chunk::Exact(c) } else { Chunk::Min(c) })];
+        }
+        if scn.nt.first().map(|x| x.1 == 1).unwrap_or(false) {
+            scn.nt = vec![(0, r.range(2, 5))];
+        }
+        match r.below(10) {
+            0..=3 => {
+                scn.policy = Policy::Starve(r.below(3) as u8);
+                scn.starve_release = 0;
+                scn.noise = 0;
+            }
+            4..=5 => {
+                scn.policy = Policy::Sticky(90);
+                scn.noise = 0;
+            }
+            _ => {}
+        }
+        if let Term::Find(_) = scn.term {
+            place_far_matches(r, &mut scn);
+        }
+    }
     if large {
         // sampled large inputs; closures are yield points only every 2^k-th event
         // the largest sampled length costs ~10 s per run: it has its own phase in the thorough tier
